@@ -4,7 +4,8 @@ package witness
 
 // C14 — "The witness cosigns only one append-only history per log".
 //
-// A stateful, model-based rapid test. Each case builds 2–4 origins, each a
+// A stateful, model-based rapid test. Each case builds 1–3 origins (plus one
+// that is never registered), each a
 // forest (base + forks, vfref trees), registers some of them through
 // PullLogList, and then runs ≈15 steps: single add-checkpoint requests,
 // batches of 2–4 simultaneous requests (real goroutines), restarts
